@@ -35,6 +35,7 @@ TRet == /\ Ev.e = "ret" /\ ~returned /\ returned' = TRUE /\ UNCHANGED <<pl, star
         /\ Failed => Ev.err                                  \* the first error is reported
         /\ Ev.err => (Failed \/ pl.memlimit)                 \* and only a real failure is
         /\ (pl.memlimit /\ ~cancelled /\ ~Failed) => Ev.err  \* exceeding the memory limit is an error
+        /\ Ev.elapsed_ms <= Ev.budget_ms                      \* promptly: a failure cancels the driver calls still in flight
 \* ---- buffered pipe
 IsPrefix(a, b) == Len(a) <= Len(b) /\ \A i \in 1..Len(a) : a[i] = b[i]
 TPipe == /\ Ev.e = "pipe" /\ psent' = <<>> /\ pgot' = <<>> /\ pst' = [open |-> TRUE, closed |-> FALSE, rclosed |-> FALSE, cancelled |-> FALSE, n |-> Ev.n, reader |-> Ev.reader] /\ KeepTrav
